@@ -9,6 +9,8 @@ for d in sorted(os.listdir(V + '/seeded')):
         continue
     m = json.load(open(p))
     esc = lambda t: str(t).replace('|', '\\|').replace('\n', ' ')
+    if m.get('origin'):
+        m['summary'] = '(%s) %s' % (m['origin'], m.get('summary', ''))
     rows.append('| `%s` — %s | %s | %s | %s |' % (d, esc(m.get('summary', ''))[:420], esc(m.get('needs', ''))[:360],
                                                  ', '.join(m.get('caught_by', [])) or '**missed**', esc(m.get('detection', ''))[:420]))
 pend = sorted(x for x in os.listdir(V + '/seeded/_pending')) if os.path.isdir(V + '/seeded/_pending') else []
